@@ -24,9 +24,9 @@ EXPRS = {
     'R^x': lambda R, x: R ^ x, 'R|x': lambda R, x: R | x, 'R&x': lambda R, x: R & x, 'hodge(R*x)': lambda R, x: (R * x).hodge(),
     'x@R': lambda R, x: x @ R, 'R*x-x*R+2*x': lambda R, x: R * x - x * R + 2 * x, 'x.lc(R)': lambda R, x: x.lc(R),
     '~(x*R)': lambda R, x: ~(x * R), 'R.acp(x)-x': lambda R, x: R.acp(x) - x,
-    '(x|R)*R': lambda R, x: (x | R) * R, 'R*(x^R)': lambda R, x: R * (x ^ R), 'R.sw(x)+R.cp(x)': lambda R, x: R.sw(x) + R.cp(x),
+    '(R*x)/2': lambda R, x: (R * x) / 2, 'x/4+R*x': lambda R, x: x / 4 + R * x, '(x|R)*R': lambda R, x: (x | R) * R, 'R*(x^R)': lambda R, x: R * (x ^ R), 'R.sw(x)+R.cp(x)': lambda R, x: R.sw(x) + R.cp(x),
 }
-MODES = ['sym', 'num', 'arr', 'reslike', 'reslike-num']
+MODES = ['sym', 'num', 'num-int', 'arr', 'reslike', 'reslike-num']
 
 
 def floors(tier):
@@ -272,6 +272,10 @@ def expr_unit(ctx, unit):
                 R = gen.mv_from(alg, rk, shared)
                 rvals = [rvals[0] if (i % 2 == 0) else rvals[1] for i in range(len(rvals))]
                 ctx.count('shared_symbol_inputs')
+        elif mode == 'num-int':
+            # integer-valued inputs: the matrix entries can still be fractional (x / 4, (R*x) / 2, 0.5 in cp)
+            rvals = [Fr(gen.small_int(rng, -3, 3, nonzero=True)) for _ in rk]
+            R = gen.mv_from(alg, rk, [int(v) for v in rvals])
         elif mode in ('num', 'reslike-num'):
             R = gen.mv_from(alg, rk, [float(v) for v in rvals])
         else:
